@@ -29,7 +29,8 @@ def ratPrim : Prim QV where
   nan := none
   inf := none
   ofInt := fun v => some v
-  ofDec := fun m e => some (some (if e ≥ 0 then (m : Rat) * 10 ^ e.toNat else (m : Rat) / 10 ^ (-e).toNat))
+  parseFloat := decParse
+    (fun m e => some (some (if e ≥ 0 then (m : Rat) * 10 ^ e.toNat else (m : Rat) / 10 ^ (-e).toNat))) none none
   add := qlift (· + ·)
   sub := qlift (· - ·)
   mul := qlift (· * ·)
